@@ -131,7 +131,36 @@ def run(ctx, eng):
            'END_STREAM on 1xx refused before the state step', ok,
            'ProtocolError before process_input when end_stream and 1xx',
            node=fi.node)
+    # what "informational" means: every status that starts with 1 (a table
+    # of the codes someone happens to know leaves 103 and the rest final)
+    fq = eng.m.func('utilities.is_informational_response')
+    bad = []
+    n = 0
+    for p in cm.normal_paths(eng.I.run(fq)):
+        v = p.value
+        if v is None or v == T.NONE or (v[0] == 'c' and not v[1]):
+            continue
+        n += 1
+        if v[0] == 'call' and v[1].endswith('.startswith') and \
+                len(v[2]) == 2:
+            arg = v[2][1]
+            if arg[0] == 'c' and arg[1] not in (b'1', '1'):
+                bad.append('tests for the prefix %r' % (arg[1],))
+            if not (v[2][0][0] == 'lv' or v[2][0][0] == 'sub'):
+                bad.append('prefix test not on the field value')
+        else:
+            bad.append('decided by %s, not by the first digit'
+                       % cm.show0(v)[:70])
+    ctx.ob('FLOW.informational', fq.qual, '1xx means the value starts with 1',
+           n > 0 and not bad, '; '.join(sorted(set(bad))) or
+           ':status value .startswith("1")', node=fq.node)
     ctx.assume('header-list validity is decided under C14')
+    cm.include(ctx, eng, 'C14',
+               lambda o: o.rule == 'ORD.clause' and isinstance(o.where, str)
+               and o.where.endswith('_check_pseudo_header_field_acceptability'),
+               'a second final response is refused only because a header '
+               'block sent after the final one is a trailer block, and a '
+               'trailer block may carry no pseudo-header at all')
     cm.include(ctx, eng, 'C22', {('ORD.gates', 'push_stream')},
                'a promised stream becomes reserved only once the parent has '
                'accepted the push: a refused push must not leave a stream on '
